@@ -2,7 +2,7 @@
 
 Shapes are concrete, scalars are symbolic (z3).  Paths are explored by
 decision-prefix re-execution (see Explorer)."""
-import json, re, sys, time, itertools
+import json, os, re, sys, time, itertools
 import z3
 
 I = z3.IntVal
@@ -431,6 +431,7 @@ class Exec:
         self.depth = 0
         self.alt_sink = None
         self.no_merge = False
+        self.cur = None
 
     # ---- symbols
     def fresh(self, name, sort='int'):
@@ -496,14 +497,21 @@ class Exec:
             self.solver.add(c)
             return d
         rt = self.check_sat(cond)
-        rf = self.check_sat(z3.Not(cond))
+        # the path condition itself is satisfiable, so if cond is impossible its negation is possible
+        rf = z3.sat if rt == z3.unsat else self.check_sat(z3.Not(cond))
         if rt == z3.unknown or rf == z3.unknown:
             # keep both (sound for bug finding: infeasible paths are re-checked at the assertion)
             rt = z3.sat if rt != z3.unsat else rt
             rf = z3.sat if rf != z3.unsat else rf
         if rt == z3.sat and rf == z3.sat:
-            (self.alt_sink if self.alt_sink is not None else self.xp.work).append(self.dec + [False])
-            d = True
+            if self.alt_sink is None and self.xp.fork_ctx is not None:
+                d = not self.xp.fork_ctx.spawn()
+            else:
+                (self.alt_sink if self.alt_sink is not None else self.xp.work).append(self.dec + [False])
+                d = True
+            if self.xp.profile_forks:
+                site = '%s:%s' % (self.frames[-1].fn['name'].split('/')[-1] if self.frames else 'harness', (self.cur or {}).get('ln') if self.frames else '')
+                self.xp.fork_sites[site] = self.xp.fork_sites.get(site, 0) + 1
         elif rt == z3.sat:
             d = True
         elif rf == z3.sat:
@@ -525,6 +533,13 @@ class Exec:
             d = self.prefix[k]
             self.dec.append(d)
             return d
+        if self.alt_sink is None and self.xp.fork_ctx is not None:
+            for alt in range(1, n):
+                if self.xp.fork_ctx.spawn():
+                    self.dec.append(alt)
+                    return alt
+            self.dec.append(0)
+            return 0
         for alt in range(1, n):
             (self.alt_sink if self.alt_sink is not None else self.xp.work).append(self.dec + [alt])
         self.dec.append(0)
@@ -1196,6 +1211,7 @@ class Exec:
                 raise UnwindExceeded('%s block %d' % (fn['name'], cur))
             nxt = None
             for ins in b['ins']:
+                self.cur = ins
                 self.steps += 1
                 if self.steps > self.max_steps:
                     raise UnwindExceeded('step budget exceeded in ' + fn['name'])
@@ -1632,6 +1648,11 @@ def op_store(ex, fr, ins, b):
 
 def op_if(ex, fr, ins, b):
     c = ex.val(fr, ins['x'])
+    if ex.xp.profile_forks and 'ln' not in ins and isinstance(ins['x'], str):
+        for i2 in b['ins']:
+            if i2.get('r') == ins['x'][2:] and 'ln' in i2:
+                ex.cur = dict(ins, ln=i2['ln'])
+                break
     return ('jump', b['succs'][0] if ex.branch(c) else b['succs'][1])
 
 
@@ -1706,6 +1727,9 @@ class Explorer:
         self.trace_calls = trace_calls
         self.global_init = {}
         self.merge_funcs = set()
+        self.profile_forks = False
+        self.fork_sites = {}
+        self.fork_ctx = None
         self.nsummaries = 0
         self.work = []
         self.nqueries = 0
@@ -1741,12 +1765,15 @@ class Explorer:
     def select(self, ex, states, blocking, t):
         raise Unsupported('select')
 
-    def run(self, harness, on_path=None):
+    def run(self, harness, on_path=None, stop_after=None, want_open=None, initial=None):
         """harness(ex) -> any; on_path(ex, kind, result_or_exc)"""
-        self.work = [[]]
+        self.work = [[]] if initial is None else list(initial)
         npaths = 0
         while self.work:
-            prefix = self.work.pop()
+            if stop_after is not None and npaths >= stop_after and len(self.work) >= (want_open or 1):
+                break
+            # breadth-first while seeding a parallel run (gives well-spread prefixes), depth-first otherwise
+            prefix = self.work.pop(0) if stop_after is not None else self.work.pop()
             npaths += 1
             if npaths > self.max_paths:
                 self.stats['truncated'] = self.stats.get('truncated', 0) + len(self.work) + 1
@@ -1756,6 +1783,8 @@ class Explorer:
             kind, info = 'done', None
             try:
                 info = harness(ex)
+            except SystemExit:
+                raise
             except Infeasible:
                 kind = 'infeasible'
             except PathAbort as e:
@@ -1772,3 +1801,54 @@ class Explorer:
             if on_path is not None:
                 on_path(ex, kind, info)
         return self.stats
+
+
+class ForkCtx:
+    """process-level path forking: at a two-sided branch the process forks; the child takes the alternative.
+    No re-execution, the solver state is inherited.  At most `jobs` paths run concurrently."""
+
+    def __init__(self, jobs, max_paths, on_child):
+        import multiprocessing as mp
+        self.sem = mp.Semaphore(max(jobs - 1, 0))
+        self.budget = mp.Value('i', max_paths)
+        self.truncated = mp.Value('i', 0)
+        self.on_child = on_child
+        self.children = []
+        self.holds_sem = False
+        self.is_child = False
+        self.root = os.getpid()
+
+    def spawn(self):
+        """returns True in the child (which must take the alternative), False in the parent"""
+        with self.budget.get_lock():
+            if self.budget.value <= 0:
+                with self.truncated.get_lock():
+                    self.truncated.value += 1
+                return False
+            self.budget.value -= 1
+        sys.stdout.flush()
+        sys.stderr.flush()
+        got = self.sem.acquire(block=False)
+        pid = os.fork()
+        if pid == 0:
+            self.is_child = True
+            self.holds_sem = got
+            self.children = []
+            self.on_child()
+            return True
+        if got:
+            self.children.append(pid)
+        else:
+            os.waitpid(pid, 0)
+        return False
+
+    def finish(self):
+        for pid in self.children:
+            try:
+                os.waitpid(pid, 0)
+            except ChildProcessError:
+                pass
+        self.children = []
+        if self.holds_sem:
+            self.sem.release()
+            self.holds_sem = False
